@@ -154,10 +154,10 @@ Proof.
 Qed.
 
 (* ---------- C03: the process state mirrors terminal writes to the root task ---------- *)
-Theorem root_terminal_mirrored site e s : is_completed s = true -> pstate (set_state site e 0 s) = s.
-Proof. intros H. unfold set_state. rewrite H. reflexivity. Qed.
+Theorem root_terminal_mirrored site e s : 0 < length (tasks e) -> is_completed s = true -> pstate (set_state site e 0 s) = s.
+Proof. intros H0 H. unfold set_state. apply Nat.ltb_lt in H0. rewrite H0, H. reflexivity. Qed.
 Theorem other_writes_keep_pstate site e i s : i <> 0 -> pstate (set_state site e i s) = pstate e.
-Proof. intros H. unfold set_state. destruct (Nat.eqb_spec i 0); [contradiction|]. rewrite andb_false_r. reflexivity. Qed.
+Proof. intros H. unfold set_state. destruct (negb _); [reflexivity|]. destruct (Nat.eqb_spec i 0); [contradiction|]. rewrite andb_false_r. reflexivity. Qed.
 
 (* ---------- C08: the message gate ---------- *)
 Theorem msg_gate e i : msg_allowed e i = true -> st e i <> SPending /\ st e i <> SRunning /\ t_silent (tk e i) = false.
